@@ -312,11 +312,17 @@ Definition sess_quit (cfg : sess_save) (omen_exit : bool) (num : nat) (state : s
   if omen_exit then mk_save (Some num) (Some state) else cfg.
 
 (* run(load_session=True): has_option(omen_guess_number) -> restore_omen from
-   the .omn.  Returns the restored generator state (None: no OMEN restore) and
-   the save config the resumed session continues with. *)
-Definition sess_restore (cleared : bool) (cfg : sess_save) : option saved * sess_save :=
+   the .omn, which runs the restored level until it is exhausted or a quit is
+   seen after one of its guesses ([omen_exit] = the flag restore_omen leaves:
+   true iff the quit check after a guess fired; a quit flag raised while the
+   exhausting next_guess call is searching leaves it false although
+   should_exit is true).  Afterwards, as coded with the R7 repair:
+   `if not self.pcfg.omen_exit: remove_option(omen_guess_number)`.
+   Returns the restored generator state (None: no OMEN restore) and the save
+   config the resumed session continues with. *)
+Definition sess_restore (cleared : bool) (cfg : sess_save) (omen_exit : bool) : option saved * sess_save :=
   match sv_number cfg with
-  | Some _ => (sv_omn cfg, if cleared then mk_save None (sv_omn cfg) else cfg)
+  | Some _ => (sv_omn cfg, if cleared && negb omen_exit then mk_save None (sv_omn cfg) else cfg)
   | None => (None, cfg)
   end.
 
